@@ -137,4 +137,4 @@ def handleC13 (j : Json) : Except String Verdict := do
   | _ => return .bad s!"unknown kind {k}"
 
 def main (args : List String) : IO Unit :=
-  if args.contains "--xform" then xformLoop xform else runDriver handleC13
+  if args.contains "--xform" then xformLoop xform else runDriver (single handleC13)
